@@ -63,6 +63,9 @@ func (s *_watchSession) done() <-chan struct{} {
 }
 
 func (s *_watchSession) stop() {
+	// abort a connect that is still in flight: run() only reaches its
+	// ShutdownRequest select after client.Watch has returned.
+	s.cancel()
 	s.lc.ShutdownAsync(nil)
 }
 
